@@ -336,7 +336,9 @@ def run_poly(c):
         if overlap:
             for p in r:
                 q = np.asarray(p.array)
-                q = [Fraction(float(x)).limit_denominator(1000) for x in q[:-1] / q[-1]]
+                if not ck.check(bool(np.all(np.isfinite(q))) and abs(q[-1]) > 1e-9 * max(1e-300, float(np.max(np.abs(q)))), site + ":overlap:returned-point-finite", np.asarray(q).tolist()):
+                    continue
+                q = [Fraction(float(np.real(x))).limit_denominator(1000) for x in q[:-1] / q[-1]]
                 onb = any(X.on_segment(pts[i], pts[(i + 1) % n], q) for i in range(n))
                 ck.check(onb, site + ":overlap:returned-point-on-boundary", [float(x) for x in q])
             return ck.result()
